@@ -533,10 +533,46 @@ def functionality_paths(th):
     return out
 
 
+def add_implicit_type_atoms(paths):
+    """a variable that is bound only through premise equalities / used only in a conclusion without occurring in any premise
+    relation atom ranges over the elements of its type: the compiler emits a type-set atom for it (probed: `if t = x; if u = id();
+    then mul(t, u) = t` has premise ElSet(t), id(u)).  The atom is inserted before the first statement using the variable."""
+    out = []
+    for items, tys in paths:
+        bound = set()
+        new_items = []
+        for kind, a in items:
+            if kind == "if":
+                if a[0] == "rel":
+                    bound |= set(a[2])
+                elif a[0] == "type":
+                    bound.add(a[1])
+                elif a[0] == "def":
+                    bound |= set(a[2]) | {a[3]}
+                new_items.append((kind, a))
+                continue
+            used = []
+            if a[0] == "rel":
+                used = list(a[2])
+            elif a[0] == "eq":
+                used = [a[1], a[2]]
+            elif a[0] == "def":
+                used = list(a[2])
+            for v in used:
+                if v not in bound and v in tys:
+                    new_items.append(("if", ("type", v, tys[v])))
+                    bound.add(v)
+            new_items.append((kind, a))
+            if a[0] == "def":
+                bound.add(a[3])
+        out.append((new_items, tys))
+    return out
+
+
 def reference(src):
     """parse a theory; returns (Theory, [(rule name, [(items, vartypes)])]) incl. functionality rules"""
     th = parse(src)
-    rules = [(name, rule_paths(th, body)) for name, body in th.rules]
+    rules = [(name, add_implicit_type_atoms(rule_paths(th, body))) for name, body in th.rules]
     return th, rules + functionality_paths(th)
 
 
